@@ -98,6 +98,8 @@ def run_verus(rs_path, externs, deps_dir, extra=None, timeout=900):
 
 SEMANTIC = [
     ("postcondition not satisfied", "postcondition"),
+    ("unable to prove post-condition of closure", "postcondition"),
+    ("unable to prove pre-condition of closure", "precondition"),
     ("precondition not satisfied", "precondition"),
     ("assertion failed", "assertion"),
     ("invariant not satisfied", "invariant"),
